@@ -388,7 +388,7 @@ func runC06(rc *RunCtx) {
 	}
 	p := drawParCfg(t, len(recs))
 	dir := filepath.Join(rc.Dir, fmt.Sprintf("u%d", rc.Index))
-	defer os.RemoveAll(dir)
+	defer cleanup(dir)
 	os.MkdirAll(dir, 0755)
 	in := filepath.Join(dir, "in.fasta")
 	os.WriteFile(in, []byte(sb.String()), 0644)
